@@ -3,7 +3,37 @@ sys.path.insert(0, os.path.dirname(os.path.dirname(os.path.abspath(__file__))))
 import checklib
 
 
+STMT_REQUESTS = [
+    "starvingmutex.go:NewStarvingMutex", "starvingmutex.go:StarvingMutex.RLock", "starvingmutex.go:StarvingMutex.RUnlock",
+    "starvingmutex.go:StarvingMutex.Lock", "starvingmutex.go:StarvingMutex.Unlock", "starvingmutex.go:StarvingMutex.canWrite",
+    "dagmutex.go:NewDAGMutex", "dagmutex.go:DAGMutex.RLock", "dagmutex.go:DAGMutex.RUnlock", "dagmutex.go:DAGMutex.Lock",
+    "dagmutex.go:DAGMutex.Unlock", "dagmutex.go:DAGMutex.registerMutexes", "dagmutex.go:DAGMutex.registerMutex",
+    "dagmutex.go:DAGMutex.unregisterMutexes", "dagmutex.go:DAGMutex.unregisterMutex",
+    "counter.go:NewCounter", "counter.go:Counter.Get", "counter.go:Counter.Set", "counter.go:Counter.Update",
+    "counter.go:Counter.Increase", "counter.go:Counter.Decrease", "counter.go:Counter.WaitIsZero", "counter.go:Counter.WaitIsBelow",
+    "counter.go:Counter.WaitIsAbove", "counter.go:Counter.set", "counter.go:Counter.update", "counter.go:Counter.notifySubscribers",
+    "stack.go:NewStack", "stack.go:Stack.Push", "stack.go:Stack.Pop", "stack.go:Stack.Size", "stack.go:Stack.PopOrWait",
+    "stack.go:Stack.WaitIsEmpty", "stack.go:Stack.WaitSizeIsBelow", "stack.go:Stack.WaitSizeIsAbove", "stack.go:Stack.SignalShutdown"]
+
+
+def regen_stmts(ctx):
+    """Regenerates lean/Hive/Gen/C17_Stmts.lean: the normalised statements (guards, assignments, panics, calls) of the
+    anchored functions, pinned by the `C17_stmts_*` theorems of Hive/Props/SyncMutexCode.lean."""
+    out = os.path.join(checklib.LEAN, "Hive", "Gen", "C17_Stmts.lean")
+    tmp = os.path.join(ctx.scratch, "C17_Stmts.lean")
+    args = ["go", "run", "./c17/stmts", tmp, "Hive.Gen.C17Stmts"] + [os.path.join(ctx.repo, "runtime/syncutils", r) for r in STMT_REQUESTS]
+    rc, log = checklib.sh(args, cwd=checklib.HARNESS, timeout=600)
+    if rc != 0 or not os.path.exists(tmp):
+        return [{"kind": "skeleton-extractor", "detail": checklib.tail(log, 20)}]
+    checklib.write_gen(ctx, out, open(tmp).read())
+    return []
+
+
 def regen(ctx):
+    return (regen_skel(ctx) or []) + regen_stmts(ctx)
+
+
+def regen_skel(ctx):
     f = "runtime/syncutils/"
     return checklib.regen_skeletons(ctx, [
         f + "starvingmutex.go:StarvingMutex.RLock", f + "starvingmutex.go:StarvingMutex.RUnlock",
@@ -21,7 +51,7 @@ def regen(ctx):
 
 
 SPEC = {
-    "lean_props": "Hive.Props.C17",
+    "lean_props": ["Hive.Props.C17", "Hive.Props.SyncMutexCode"],
     "regen": regen,
     "lean_namespace": "Hive.SyncMutex",
     "driver": "drv_c17",
@@ -35,7 +65,8 @@ SPEC = {
                  "C17_dag_composed_monitors", "C17_dag_composed_exclusion", "C17_dag_composed_deadlock_free", "C17_dag_composed_no_panic", "C17_dag_misuse_panic_registry_witness",
                  "C17_wait_iff_returns_only_if", "C17_wait_iff_no_lost_wakeup", "C17_wait_iff_quiescent",
                  "C17_waitv_refines_wait", "C17_waitv_quiescent", "C17_stack_fifo_conservation", "C17_counter_notifications_chain", "C17_counter_stack_return_values",
-                 "C17_driver_outcomes_reachable", "C17_skeleton_starvingmutex", "C17_skeleton_dagmutex", "C17_skeleton_counter", "C17_skeleton_stack", "C17_skeleton_types"],
+                 "C17_driver_outcomes_reachable", "C17_skeleton_starvingmutex", "C17_skeleton_dagmutex", "C17_skeleton_counter", "C17_skeleton_stack", "C17_skeleton_types",
+                 "C17_stmts_NewStarvingMutex", "C17_stmts_StarvingMutex_RLock", "C17_stmts_StarvingMutex_RUnlock", "C17_stmts_StarvingMutex_Lock", "C17_stmts_StarvingMutex_Unlock", "C17_stmts_StarvingMutex_canWrite", "C17_stmts_NewDAGMutex", "C17_stmts_DAGMutex_RLock", "C17_stmts_DAGMutex_RUnlock", "C17_stmts_DAGMutex_Lock", "C17_stmts_DAGMutex_Unlock", "C17_stmts_DAGMutex_registerMutexes", "C17_stmts_DAGMutex_registerMutex", "C17_stmts_DAGMutex_unregisterMutexes", "C17_stmts_DAGMutex_unregisterMutex", "C17_stmts_NewCounter", "C17_stmts_Counter_Get", "C17_stmts_Counter_Set", "C17_stmts_Counter_Update", "C17_stmts_Counter_Increase", "C17_stmts_Counter_Decrease", "C17_stmts_Counter_WaitIsZero", "C17_stmts_Counter_WaitIsBelow", "C17_stmts_Counter_WaitIsAbove", "C17_stmts_Counter_set", "C17_stmts_Counter_update", "C17_stmts_Counter_notifySubscribers", "C17_stmts_NewStack", "C17_stmts_Stack_Push", "C17_stmts_Stack_Pop", "C17_stmts_Stack_Size", "C17_stmts_Stack_PopOrWait", "C17_stmts_Stack_WaitIsEmpty", "C17_stmts_Stack_WaitSizeIsBelow", "C17_stmts_Stack_WaitSizeIsAbove", "C17_stmts_Stack_SignalShutdown"],
     "trusted_base": [
         "hand-written protocol models Hive/Model/SyncMutex.lean (StarvingMutex monitor), SyncMutexDag.lean (DAGMutex over abstract "
         "per-entity reader/writer locks), SyncMutexWait.lean (Counter/Stack waits); ties: scripted-arrival conformance, stress traces, "
